@@ -293,9 +293,20 @@ func (d *Decoder) readMap(dest reflect.Value) error {
 // types of m (int32 to int, *A to A, ...); a null value is stored as the zero value of the
 // element type instead of deleting the key.
 func setMapEntry(m reflect.Value, key, value interface{}) {
-	k := reflect.New(m.Type().Key()).Elem()
-	SetValue(k, EnsureRawValue(key))
-	v := reflect.New(m.Type().Elem()).Elem()
-	SetValue(v, EnsureRawValue(value))
-	m.SetMapIndex(k, v)
+	m.SetMapIndex(mapOperand(m.Type().Key(), key), mapOperand(m.Type().Elem(), value))
+}
+
+// mapOperand converts a decoded key or value to the key or element type t of a map. A dynamic
+// (interface) type holds the decoded value as it is: a pointer stays the pointer it was.
+func mapOperand(t reflect.Type, x interface{}) reflect.Value {
+	o := reflect.New(t).Elem()
+	r := EnsureRawValue(x)
+	if t.Kind() == reflect.Interface {
+		if r.IsValid() {
+			o.Set(r)
+		}
+		return o
+	}
+	SetValue(o, r)
+	return o
 }
